@@ -598,6 +598,23 @@ fn gen_c09(seed: u64) -> Plan {
             Action::User(UserOp::SetScripts { cmd, scripts }),
         );
     }
+    if mix(&[seed, 0xc09f]) % 2 == 0 {
+        // answers to re-asked filter requests arrive twice, the second copy a little later, and
+        // documented no-op commands (empty list with partial / delete) fall in between
+        for p in 0..b.plan.peers.len() {
+            for ord in 0..14u64 {
+                if mix(&[seed, 0xc0a0, p as u64, ord]) % 2 == 0 {
+                    b.plan.peers[p].mutations.push(MutSpec { kind: 4, ordinal: ord, op: 1003, seed: mix(&[seed, 0xc0a1, p as u64, ord]) });
+                }
+            }
+        }
+        let n = 2 + mix(&[seed, 0xc0a2]) % 6;
+        for j in 0..n {
+            let at = 2_000 + mix(&[seed, 0xc0a3, j]) % until.max(1);
+            let cmd = if mix(&[seed, 0xc0a4, j]) % 2 == 0 { SetCmd::Partial } else { SetCmd::Delete };
+            add(&mut b.plan, at, Action::User(UserOp::SetScripts { cmd, scripts: Vec::new() }));
+        }
+    }
     let n_ops = b.rng.range(0, 5);
     for _ in 0..n_ops {
         let at = b.rng.range(0, until);
@@ -1292,6 +1309,33 @@ fn gen_c16(seed: u64) -> Plan {
             };
             add(&mut b.plan, t, Action::User(op));
             t += b.rng.range(500, 30_000);
+        }
+    }
+    // bursts: several fetches of one kind at the same instant travel in one request, so that one
+    // answer carries found and missing items together
+    if mix(&[seed, 0xb0057]) % 2 == 0 {
+        for j in 0..(1 + mix(&[seed, 0xb0058]) % 3) {
+            let is_tx = mix(&[seed, 0xb0059, j]) % 2 == 0;
+            let at = 1_000 + mix(&[seed, 0xb005a, j]) % (until / 2).max(1);
+            let n = 2 + mix(&[seed, 0xb005b, j]) % 3;
+            for i in 0..n {
+                let r = mix(&[seed, 0xb005c, j, i]);
+                let href = match (i, r % 4) {
+                    (0, _) => HashRef::Block { branch: 0, number: r % tip.max(1) },
+                    (1, 0) if side => HashRef::Block { branch: 1, number: tip + 10 },
+                    (1, _) => HashRef::Bogus(r),
+                    (_, 0) => HashRef::Bogus(r),
+                    _ => HashRef::Block { branch: 0, number: (r >> 8) % tip.max(1) },
+                };
+                let href = match (is_tx, href) {
+                    (true, HashRef::Block { branch, number }) => HashRef::Tx { branch, number, k: r % 2 },
+                    (_, x) => x,
+                };
+                let op = if is_tx { UserOp::FetchTransaction(href) } else { UserOp::FetchHeader(href) };
+                for k in 0..3u64 {
+                    add(&mut b.plan, at + k * (7_000 + mix(&[seed, 0xb005d, j]) % 20_000), Action::User(op.clone()));
+                }
+            }
         }
     }
     let mut flags: Vec<String> = vec!["honest".into(), "fetch".into(), "expect_converge".into()];
